@@ -41,6 +41,8 @@ type Scenario struct {
 	Setup func()
 	// RecordOps asks the runtime to keep (thread, op, observed value) of every shimmed operation.
 	RecordOps bool
+	// WriterProgress: see mcrt.Config.KeyWriterProgress.
+	WriterProgress bool
 }
 
 // Options of an exploration.
@@ -140,7 +142,7 @@ func RunOne(sc *Scenario, prefix []int, opt Options, hook func(uint64, int) bool
 		sc.Setup()
 	}
 	inst := sc.New()
-	cfg := mcrt.Config{Prefix: prefix, MaxSteps: opt.MaxSteps, KeyHook: hook, TraceOps: trace, RecordOps: sc.RecordOps, KeyNoCur: opt.Bound < 0}
+	cfg := mcrt.Config{Prefix: prefix, MaxSteps: opt.MaxSteps, KeyHook: hook, TraceOps: trace, RecordOps: sc.RecordOps, KeyNoCur: opt.Bound < 0, KeyWriterProgress: sc.WriterProgress}
 	if k, ok := inst.(Keyed); ok && hook != nil {
 		cfg.ExtraKey = k.ExtraKey
 	}
